@@ -116,41 +116,42 @@ func ErrName(err error) string {
 
 // Features are measured (never assumed) properties of an executed history.
 type Features struct {
-	Muts                         int
-	Puts, Dels                   int
-	Rewrites                     int // key written twice or deleted after being written
-	Rotations                    int
-	BigValue                     int // value longer than one block
-	NearBoundary                 int // a write left the file end within 8 bytes of a block boundary
-	TailPad                      int // a write started in the last 7 bytes of a block
-	OverLimit                    int // record larger than DataFileSize
-	Batches                      int
-	BatchPlainSame               int // key written both by a batch and plainly
-	Merges                       int
-	MergeOK                      int
-	MergeAfterDel                int
-	Reopens                      int
-	ReopenAfter                  map[string]int
-	EmptyKeyOps                  int
-	LongKey                      int
-	Enumerations                 int
-	Steps                        int
-	BGetRotated                  int // Batch.Get served from a rotated (older) file
-	BGetActive                   int // Batch.Get served from the database, active file
-	BGetStaged                   int
-	BatchRepeat                  int // batch touching one key more than once
-	BPutAfterDel                 int // Batch.Put of a key the same batch deleted before
-	MidBatchFlush                int // the batch caused a rotation before its Commit returned
-	PostCommit                   int
-	EmptyBatch                   int
-	IterSessions                 int
-	C13Rot, C13Thr, C13SyncBatch int
-	Backups                      int
-	BackupWithHint               int
-	WritesAfterBackup            int
-	IterNonTrivial               int // sessions over keys in >= 2 shards with a Seek or a Rewind after Next
-	IterLabels                   map[string]int
-	dirtySince                   map[string]bool // events since last reopen
+	Muts                                              int
+	Puts, Dels                                        int
+	Rewrites                                          int // key written twice or deleted after being written
+	Rotations                                         int
+	BigValue                                          int // value longer than one block
+	NearBoundary                                      int // a write left the file end within 8 bytes of a block boundary
+	TailPad                                           int // a write started in the last 7 bytes of a block
+	OverLimit                                         int // record larger than DataFileSize
+	Batches                                           int
+	BatchPlainSame                                    int // key written both by a batch and plainly
+	Merges                                            int
+	MergeOK                                           int
+	MergeAfterDel                                     int
+	Reopens                                           int
+	ReopenAfter                                       map[string]int
+	EmptyKeyOps                                       int
+	LongKey                                           int
+	Enumerations                                      int
+	Steps                                             int
+	BGetRotated                                       int // Batch.Get served from a rotated (older) file
+	BGetActive                                        int // Batch.Get served from the database, active file
+	BGetStaged                                        int
+	BatchRepeat                                       int // batch touching one key more than once
+	BPutAfterDel                                      int // Batch.Put of a key the same batch deleted before
+	MidBatchFlush                                     int // the batch caused a rotation before its Commit returned
+	PostCommit                                        int
+	EmptyBatch                                        int
+	IterSessions                                      int
+	HintMerges, MergeAdopted, MergeAdoptedOverGarbage int
+	C13Rot, C13Thr, C13SyncBatch                      int
+	Backups                                           int
+	BackupWithHint                                    int
+	WritesAfterBackup                                 int
+	IterNonTrivial                                    int // sessions over keys in >= 2 shards with a Seek or a Rewind after Next
+	IterLabels                                        map[string]int
+	dirtySince                                        map[string]bool // events since last reopen
 }
 
 // Runner executes a history against the real engine and a reference map.
@@ -1212,6 +1213,9 @@ func (r *Runner) AddLabels() {
 	lab(r.F.C13Rot > 0, "rotation-observed-at-io-level")
 	lab(r.F.C13Thr > 0, "threshold-triggered-sync")
 	lab(r.F.C13SyncBatch > 0, "sync-batch")
+	lab(r.F.MergeAdopted > 0, "merge-adopted-by-restart")
+	lab(r.F.MergeAdoptedOverGarbage > 0, "merge-over-garbage-adopted")
+	lab(r.F.HintMerges > 0, "merge-with->=2-hint-entries")
 	lab(r.F.Backups > 0, "backup")
 	lab(r.F.Backups > 1, "several-backups")
 	lab(r.F.BackupWithHint > 0, "backup-with-hint-file")
